@@ -32,6 +32,7 @@ fn files_obs(files: &[(String, String)]) -> String {
     // diagnostics that were redirected into a file differ in wording between the shells: keep marker
     // lines only (where a diagnostic lands is not part of the comparison)
     let norm = |n: &str, c: &str| -> String {
+        let n = n.rsplit('/').next().unwrap_or(n);
         if n == "f" || n == "g" || n == "nine.txt" {
             marker_lines(c)
         } else {
@@ -75,11 +76,14 @@ pub fn run(tier: Tier, replay: Option<Value>) -> ! {
     struct Case {
         script: String,
         tags: Vec<String>,
+        subdir: bool,
     }
     let mut cases: Vec<Case> = vec![];
     if let Some(r) = &replay {
         rep.replay_mode = true;
-        cases.push(Case { script: r["case"].as_str().unwrap_or("").to_string(), tags: vec![] });
+        let sc = r["case"].as_str().unwrap_or("").to_string();
+        let subdir = sc.starts_with("cd sub\n");
+        cases.push(Case { script: sc, tags: vec![], subdir });
     } else {
         for l in &lists {
             if l.len() == 3 && l[0] > l[1] && l[1] > l[2] {
@@ -112,18 +116,34 @@ pub fn run(tier: Tier, replay: Option<Value>) -> ! {
                     if noclobber {
                         tags.push("noclobber".into());
                     }
-                    cases.push(Case { script: s, tags });
+                    // the same list after the shell has changed its working directory (relative targets are
+                    // relative to the shell's directory, also for the noclobber probe): single redirections for
+                    // every command kind, pairs for external commands and groups
+                    if l.len() == 1 || (l.len() == 2 && matches!(*kn, "external" | "group")) {
+                        let mut t2 = tags.clone();
+                        t2.push("cwd:after-cd".into());
+                        cases.push(Case { script: format!("cd sub\n{s}"), tags: t2, subdir: true });
+                        if l.len() == 1 {
+                            let mut t3 = tags.clone();
+                            t3.push("cwd:after-cd-in-subshell".into());
+                            cases.push(Case { script: format!("(\ncd sub\n{s})\n"), tags: t3, subdir: true });
+                        }
+                    }
+                    cases.push(Case { script: s, tags, subdir: false });
                 }
             }
         }
     }
-    let j: Vec<Value> = cases.iter().map(|c| json!({"s": c.script, "mode": "file", "collect": true})).collect();
+    let j: Vec<Value> = cases.iter().map(|c| if c.subdir { json!({"s": c.script, "mode": "file", "collect": true, "files": {"sub/.d": ""}}) } else { json!({"s": c.script, "mode": "file", "collect": true}) }).collect();
     let brush = common::run_scripts(&j, 20_000);
     let specs: Vec<procs::ProcSpec> = cases
         .iter()
         .map(|c| {
             let mut sp = bash::spec_file(bash::BASH, &c.script, 20_000);
             sp.collect_files = true;
+            if c.subdir {
+                sp.files.push(("sub/.d".into(), vec![]));
+            }
             sp
         })
         .collect();
@@ -290,7 +310,7 @@ pub fn run(tier: Tier, replay: Option<Value>) -> ! {
         rep.set("herestring_cases", scripts.len() as u64);
     }
     rep.rule = format!(
-        "(A) all redirection lists of <= {} items over {:?} attached to {} command kinds (builtin, external, function, group, subshell, loop, eval) with pre-existing files f, g and fd 9, with/without noclobber; (B) all here-document bodies of <= {} lines over {:?} x 5 delimiter forms x <</<<- x 6 placements (incl. two documents on one line with the same and with different operators); (C) here-strings: 17 words (trailing newlines, blanks, glob/tilde/brace characters, substitutions) x 7 consumers, and here-string / here-document bodies that arrive as 65536, 65537, 1048576, 1048577, 1048578 and 3145728 bytes (either side of the 64 KiB default pipe capacity and of the 1 MiB pipe size limit) x 6 consumers (external, read loop, function, first line only, never read, external first line); distinct = tag set of the case",
+        "(A) all redirection lists of <= {} items over {:?} attached to {} command kinds (builtin, external, function, group, subshell, loop, eval) with pre-existing files f, g and fd 9, with/without noclobber, and (single redirections: all kinds; pairs: external, group) again after `cd sub` at top level and inside a subshell; (B) all here-document bodies of <= {} lines over {:?} x 5 delimiter forms x <</<<- x 6 placements (incl. two documents on one line with the same and with different operators); (C) here-strings: 17 words (trailing newlines, blanks, glob/tilde/brace characters, substitutions) x 7 consumers, and here-string / here-document bodies that arrive as 65536, 65537, 1048576, 1048577, 1048578 and 3145728 bytes (either side of the 64 KiB default pipe capacity and of the 1 MiB pipe size limit) x 6 consumers (external, read loop, function, first line only, never read, external first line); distinct = tag set of the case",
         tier.pick(2, 3),
         ITEMS,
         KINDS.len(),
